@@ -7,6 +7,7 @@ import (
 	"encoding/json"
 	"flag"
 	"fmt"
+	"math"
 	"os"
 	"os/exec"
 	"path/filepath"
@@ -44,7 +45,17 @@ type ReplayFile struct {
 	// from (seed, scenario, run_index) and replayed in a child process.
 	FromSeed bool   `json:"from_seed,omitempty"`
 	Stderr   string `json:"stderr,omitempty"`
+	// Flaky: the same choice list does not always produce the violation.  The
+	// simulator decides every choice of the harness (see bin/audit); what it
+	// cannot decide is the iteration order of Go maps inside the library
+	// (sparse ReverseOrder/Permute rebuild their index in map order), which is
+	// unobservable while the containers are coherent.  Replay repeats the run
+	// until the violation shows (Attempts = repetitions needed when recorded).
+	Flaky    bool `json:"flaky,omitempty"`
+	Attempts int  `json:"attempts,omitempty"`
 }
+
+const flakyAttempts = 400
 
 type workerViolation struct {
 	Scenario   string     `json:"scenario"`
@@ -57,6 +68,8 @@ type workerViolation struct {
 	OrigLen    int        `json:"orig_len"`
 	FromSeed   bool       `json:"from_seed,omitempty"`
 	Stderr     string     `json:"stderr,omitempty"`
+	Flaky      bool       `json:"flaky,omitempty"`
+	Attempts   int        `json:"attempts,omitempty"`
 }
 
 type workerAgg struct {
@@ -189,7 +202,7 @@ func cmdWorker(args []string) int {
 			if len(ev) > 40 {
 				ev = append(append([]string{}, ev[:40]...), fmt.Sprintf("… %d more events", len(so.Events)-40))
 			}
-			agg.Samples = append(agg.Samples, map[string]interface{}{"scenario": *sc, "run_index": i, "summary": out.Sample, "events": ev})
+			agg.Samples = append(agg.Samples, map[string]interface{}{"scenario": *sc, "run_index": i, "summary": jsonSafe(out.Sample), "events": ev})
 		}
 		if out.Viol != nil {
 			raw := out.Viol.Signature
@@ -226,8 +239,25 @@ func cmdWorker(args []string) int {
 			}
 			fin := Execute(p, *sc, NewReplayTape(choices), true, av)
 			if fin.Viol == nil || fin.Viol.Signature != raw {
-				agg.Harness = fmt.Sprintf("run %d: violation %s does not replay from its own choice list", i, raw)
-				break
+				// the harness is deterministic (bin/audit); the library is not
+				// where it walks a Go map.  Repeat: the minimised list first,
+				// then the list as recorded.
+				found := false
+				for _, cl := range [][]int{choices, out.Choices} {
+					for k := 1; k <= flakyAttempts/2 && !found; k++ {
+						fin = Execute(p, *sc, NewReplayTape(cl), true, av)
+						if fin.Viol != nil && fin.Viol.Signature == raw {
+							found, choices, wv.Flaky, wv.Attempts = true, cl, true, k
+						}
+					}
+					if found {
+						break
+					}
+				}
+				if !found {
+					agg.Harness = fmt.Sprintf("run %d: violation %s does not replay from its own choice list (%d repetitions)", i, raw, flakyAttempts)
+					break
+				}
 			}
 			wv.Violation = fin.Viol
 			wv.Choices = choices
@@ -249,9 +279,52 @@ func cmdWorker(args []string) int {
 		}
 		w.WriteString("\n")
 	}
-	b, _ := json.Marshal(agg)
+	b, err := json.Marshal(agg)
+	if err != nil {
+		// never lose a batch over its illustration
+		agg.Samples = nil
+		agg.Harness = "worker aggregate not serialisable: " + err.Error()
+		b, _ = json.Marshal(agg)
+	}
 	fmt.Fprintf(w, "A %s\n", b)
 	return 0
+}
+
+// jsonSafe replaces what encoding/json refuses (NaN, +-Inf) by strings.
+func jsonSafe(v interface{}) interface{} {
+	switch x := v.(type) {
+	case float64:
+		if math.IsNaN(x) || math.IsInf(x, 0) {
+			return fmt.Sprint(x)
+		}
+	case float32:
+		return jsonSafe(float64(x))
+	case []float64:
+		r := make([]interface{}, len(x))
+		for i := range x {
+			r[i] = jsonSafe(x[i])
+		}
+		return r
+	case [][]float64:
+		r := make([]interface{}, len(x))
+		for i := range x {
+			r[i] = jsonSafe(x[i])
+		}
+		return r
+	case []interface{}:
+		r := make([]interface{}, len(x))
+		for i := range x {
+			r[i] = jsonSafe(x[i])
+		}
+		return r
+	case map[string]interface{}:
+		r := make(map[string]interface{}, len(x))
+		for k, e := range x {
+			r[k] = jsonSafe(e)
+		}
+		return r
+	}
+	return v
 }
 
 /* replay -------------------------------------------------------------------- */
@@ -314,6 +387,11 @@ func cmdReplay(args []string) int {
 		}
 	}
 	out := Execute(p, rf.Scenario, NewReplayTape(rf.Choices), true, avoidSet(strings.Join(rf.Avoid, ",")))
+	if rf.Flaky && rf.Violation != nil {
+		for k := 1; k < flakyAttempts && (out.Viol == nil || out.Viol.Signature != rf.Violation.Signature); k++ {
+			out = Execute(p, rf.Scenario, NewReplayTape(rf.Choices), true, avoidSet(strings.Join(rf.Avoid, ",")))
+		}
+	}
 	if !*quiet {
 		for _, e := range out.Events {
 			fmt.Println(e)
@@ -427,13 +505,13 @@ type batch struct {
 }
 
 type checkState struct {
-	mu        sync.Mutex
-	aggs      []workerAgg
-	viols     []workerViolation
-	hashes    map[uint64]struct{}
-	harness   []string
-	stalls    []string
-	execNs    int64
+	mu      sync.Mutex
+	aggs    []workerAgg
+	viols   []workerViolation
+	hashes  map[uint64]struct{}
+	harness []string
+	stalls  []string
+	execNs  int64
 }
 
 func repoHead() string {
@@ -647,7 +725,10 @@ func cmdCheck(args []string) int {
 		// shown by its direct probe above), so whatever the search finds is
 		// by construction something the findings file does not list.
 		rf := &ReplayFile{Property: p.ID, Engine: p.Engine, Scenario: v.Scenario, Seed: seed, RunIndex: v.RunIndex,
-			Choices: v.Choices, Violation: v.Violation, Events: v.Events, RepoHead: head, FromSeed: v.FromSeed, Stderr: v.Stderr}
+			Choices: v.Choices, Violation: v.Violation, Events: v.Events, RepoHead: head, FromSeed: v.FromSeed, Stderr: v.Stderr, Flaky: v.Flaky, Attempts: v.Attempts}
+		if v.Flaky {
+			rf.Note = "the violation depends on the iteration order of a Go map inside the library, which no seed controls; replay repeats this choice list (at most " + strconv.Itoa(flakyAttempts) + " times) until it shows"
+		}
 		if v.FromSeed {
 			rf.Note = "the run kills its process; it is re-created from (seed, scenario, run_index) and replayed in a child process; not minimised"
 		}
